@@ -380,7 +380,8 @@ func genScenario(i int, seed int64) scenario {
 	sc.Family = (i / 6) % 4
 	switch sc.Family {
 	case 0:
-		sc.T = []time.Duration{30, 60, 100, 150, 250, 400}[rng.Intn(6)] * time.Millisecond
+		// production intervals from a few times the minimum (1ms) up to near the maximum (1s)
+		sc.T = []time.Duration{7, 12, 30, 60, 100, 150, 250, 400}[rng.Intn(8)] * time.Millisecond
 		sc.Min, sc.Init, sc.Max = time.Millisecond, 100*time.Millisecond, time.Second
 	default:
 		sc.T = []time.Duration{100 * time.Millisecond, time.Second, 30 * time.Second}[rng.Intn(3)]
